@@ -7,9 +7,10 @@ Model (exact w.r.t. IEEE-754 doubles under the stated value bound):
 
 * vector elements are integers (python or SymbolicInt), ``+ -`` exact;
 * ``x + k*eps`` (k >= 1 concrete) is kept as ``PE(x, k)``;
-* ``n / PE(x, k)`` is the exact fraction n/x when x >= 16 (k*eps, k <= 8, is
-  absorbed by rounding), and n*2^52/k when x == 0; 0 < x < 16 is excluded by a
-  ``require`` (recorded assumption);
+* ``n / PE(x, k)`` is the exact fraction n/x when x >= 2 (k = 1) or x >= 4k
+  (k*eps is absorbed by rounding), and n*2^52/k when x == 0; the values in
+  between (x = 1 for k = 1) are excluded by a ``require`` (recorded
+  assumption);
 * fractions are compared by cross-multiplication.  With all quantities
   < 2^15 two distinct fractions differ by > 2^-30 relative 2^-45, so rounding
   to double (monotone) preserves strict order and equality;
@@ -184,6 +185,13 @@ class Frac:
         return 'Frac(%r/%r)' % (self.n, self.d)
 
 
+def _absorb_from(k):
+    """Smallest integer x >= 1 from which x + k*eps == x in IEEE doubles for
+    every larger integer: x >= 4k puts k*eps strictly below half an ulp; for
+    k == 1 the ties at x = 2, 3 round to even, i.e. to x."""
+    return 2 if k == 1 else 4 * k
+
+
 def _div(n, den):
     if not isinstance(den, PE):
         raise symx.HarnessError('symnp: division by a value without eps')
@@ -196,10 +204,10 @@ def _div(n, den):
             xv = x.as_long()
             if xv == 0:
                 return Frac(sym_int(z3.simplify(nn * _K)), den.k)
-            if xv < 16:
+            if xv < _absorb_from(den.k):
                 raise symx.Ignore()
             return Frac(n, xv)
-    _require(z3.Or(x == 0, x >= 16))
+    _require(z3.Or(x == 0, x >= _absorb_from(den.k)))
     with NoTracing():
         num = z3.If(x == 0, nn * _K, nn)
         d = z3.If(x == 0, z3.IntVal(den.k), x)
